@@ -74,6 +74,13 @@ claim("C05", "proof", "provenance normal forms of all success outcomes (value or
       "Trusted: C02 (field decoding), C19 (escape constants), value-preservation of checked_mul/checked_add/try_into on success. The 9 entsize instances are a frozen, read-confirmed table (DESIGN.md appendix C).",
       "DESIGN.md 5/C05")
 
+claim("C03", "proof", "provenance normal forms of the success outcomes of the range helpers, section_data / segment_data / get_bytes and the typed views + guard facts + signature lifetimes",
+      "Every byte slice handed out by the slice parser is, by value origin, exactly data[offset .. offset+size] of the designating header (its remainder after the parsed "
+      "compression header, or empty for SHT_NOBITS), built only from try_into / checked_add / field moves; a range that does not fit is an error because get() is the only slicing "
+      "primitive. Return types carry 'data, so with C06 the bytes are borrowed from the caller's buffer, never copied.",
+      "Trusted: C06; value-preservation of try_into/checked_add on success; semantics of <[u8]>::get. String-table entries and note name/descriptor ranges are C15 / C14.",
+      "DESIGN.md 5/C03")
+
 for pid in ["C01", "C02", "C03", "C04", "C05", "C06", "C07", "C08", "C09", "C10", "C11", "C12", "C13", "C14", "C15", "C16", "C17", "C18", "C20"]:
     if pid not in CLAIMS:
         na(pid, "static rule designed (DESIGN.md section 5) but its checker is not built yet in this revision; not claimed until it runs silent on the tree and fires on control mutants")
